@@ -24,8 +24,8 @@ META = dict(
                 "through the real state encoder) and S^2 (Jordan-Wigner, textbook Fock-space action) expectation values "
                 "requested from the solver equal those of the same state; the target Hamiltonian is restored afterwards.",
     bounds=dict(quick="H2/sto-3g (4 spin-orbitals), UCCSD + HEA + user circuit, JW/BK/scBK/JKMN x both orderings, <=3 symbolic parameters",
-                thorough="same plus open-shell H2+, more parameter sign patterns, VSQS/UpCCGSD"),
-    outside=["IEEE rounding", "the optimiser and simulate()", "PySCF integrals (concrete inputs here)", "S^2 for non-JW encodings "
+                thorough="same plus more encodings for penalties, H4 / H4 with a frozen orbital, k=2 UpCCGSD, 4-interval VSQS"),
+    outside=["IEEE rounding", "the optimiser (simulate() is run with a one-point stand-in optimiser)", "PySCF integrals (concrete inputs here)", "S^2 for non-JW encodings "
              "(basis-state phases of the encoder are not modelled)", "registers wider than 4 qubits"],
     stubs=["cirq.Simulator -> exact stub", "cirq PauliSum expectation -> exact, per term through the real translate_operator"],
     trusted_base=["symx.refsem", "symx.fock (textbook second quantisation)", "the real get_mapped_vector as the decoder for N and Sz under non-JW encodings"],
